@@ -12,9 +12,8 @@ Import ListNotations.
 Section Cache.
   Variable X : Type.
   Variable eqb : X -> X -> bool.          (* pointer equality *)
-  Variable after : X -> X -> bool.        (* isNodeAfter(counted, node): the counted node is later in the document
-                                             than the node (so the scan gives up at once unless the node is the last
-                                             one counted or later than it: a miss, never a wrong answer) *)
+  Variable after : X -> X -> bool.        (* after c n = isNodeAfter(n, c): the node n is later in the document than
+                                             the counted node c, so n cannot be further down the vector *)
   Variable target_of : X -> option X.     (* ElemNumber::getTargetNode *)
   Variable prev : X -> option X.          (* ElemNumber::getPreviousNode *)
 
@@ -182,22 +181,25 @@ Section Tree.
          end.
   Definition find_ancestor (l : loc) : option loc := find_ancestor_c (lab l) (fst l) (snd l).
 
-  (* findPrecedingOrAncestorOrSelf; None result = 0; out of fuel is reported as None too and
-     excluded by the theorems (fuel = pos + 1 always suffices) *)
-  Fixpoint find_preceding (fuel : nat) (src : A) (l : loc) : option loc :=
+  (* the common loop of findPrecedingOrAncestorOrSelf (after its first iteration) and of
+     getPreviousNode for level="any": step backwards; a node matching from ends the walk with 0,
+     a node matching count is the answer.  None also stands for "out of fuel", excluded by the
+     theorems (pos l steps always suffice). *)
+  Fixpoint find_back (fuel : nat) (src : A) (l : loc) : option loc :=
     match fuel with
     | O => None
     | S f =>
-        if frm (lab l) then None
-        else if pat src (lab l) then Some l
-        else match step_back l with
-             | Some l' => find_preceding f src l'
-             | None => None
-             end
+        match step_back l with
+        | None => None
+        | Some l' => if frm (lab l') then None
+                     else if pat src (lab l') then Some l'
+                     else find_back f src l'
+        end
     end.
 
-  (* getTargetNode *)
-  Definition target_any (l : loc) : option loc := find_preceding (S (pos l)) (lab l) l.
+  (* getTargetNode: the context node itself is tested against count only *)
+  Definition target_any (l : loc) : option loc :=
+    if pat (lab l) (lab l) then Some l else find_back (S (pos l)) (lab l) l.
   Definition target_sib (l : loc) : option loc := find_ancestor l.
 
   (* getPreviousNode, level single / multiple: previous siblings until one matches *)
@@ -213,42 +215,30 @@ Section Tree.
     | Ctx lf a up r => prev_sib_c (lab l) (fst l) lf a up r
     end.
 
-  (* getPreviousNode, level any: from is only consulted when the walk moves to a parent *)
-  Fixpoint prev_any_loop (fuel : nat) (src : A) (l : loc) : option loc :=
-    match fuel with
-    | O => None
-    | S f =>
-        match prev_sibling l with
-        | None =>
-            match parent l with
-            | None => None
-            | Some p => if is_document p || frm (lab p) then None
-                        else if pat src (lab p) then Some p else prev_any_loop f src p
-            end
-        | Some s => let d := dive (size (fst s)) s in
-                    if pat src (lab d) then Some d else prev_any_loop f src d
-        end
-    end.
-  Definition prev_any (l : loc) : option loc := prev_any_loop (S (pos l)) (lab l) l.
+  (* getPreviousNode, level any: every node visited is tested against from, then count *)
+  Definition prev_any (l : loc) : option loc := find_back (S (pos l)) (lab l) l.
 
-  (* getMatchingAncestors: innermost first *)
-  Fixpoint matching_ancestors_c (single : bool) (src : A) (t : tree) (c : ctx) : list loc :=
-    if frm (label t) && negb single then []
-    else
-      let rest := match c with
-                  | Top => []
-                  | Ctx lf a up r => matching_ancestors_c single src (Node a (rev lf ++ t :: r)) up
-                  end in
-      if pat src (label t) then (t, c) :: (if single then [] else rest) else rest.
+  (* getMatchingAncestors: innermost first; the node itself is not tested against from; an
+     ancestor matching from ends the search for level single and multiple alike *)
+  Fixpoint ma_up (single : bool) (src : A) (t : tree) (c : ctx) : list loc :=
+    match c with
+    | Top => []
+    | Ctx lf a up r =>
+        let p := Node a (rev lf ++ t :: r) in
+        if frm a then []
+        else if pat src a then (p, up) :: (if single then [] else ma_up single src p up)
+        else ma_up single src p up
+    end.
   Definition matching_ancestors (single : bool) (l : loc) : list loc :=
-    matching_ancestors_c single (lab l) (fst l) (snd l).
+    if pat (lab l) (lab l) then l :: (if single then [] else ma_up single (lab l) (fst l) (snd l))
+    else ma_up single (lab l) (fst l) (snd l).
 
   (* -------------------------------------------------------------------------------------------
      getCountString with the counters table of the instruction.  Nodes are compared by [leqb]
      (pointer equality) and by document position (isNodeAfter). *)
   Variable leqb : loc -> loc -> bool.
-  (* DOMServices::isNodeAfter(node1, node2) = node1 comes after node2 (index1 > index2) *)
-  Definition lafter (c n : loc) : bool := pos n <? pos c.
+  (* getPreviouslyCounted asks isNodeAfter(node, counted): the node comes after the counted node *)
+  Definition lafter (c n : loc) : bool := pos c <? pos n.
 
   Definition cn_any (tbl : table loc) (l : loc) : option (table loc * nat) :=
     count_node loc leqb lafter target_any prev_any (S (pos l)) tbl l.
